@@ -257,7 +257,7 @@ def body():
     # after the handshake the key-holding peer sends correctly protected records that are not application data (a handshake message, a ChangeCipherSpec, an unknown
     # type, alerts of one, two and three octets, a TLSInnerPlaintext that is all padding), then "ping"; the application asks again after the refusal (VH_RECV_AGAIN):
     # a refused record is never handed out later, and asking again neither crashes nor reads what was never written.  Both sanitizer builds.
-    POSTHS = ("post_hs_zero", "post_hs_zero16", "post_hs_handshake", "post_hs_ccs", "post_hs_unknown", "post_hs_alert1", "post_hs_alert3", "post_hs_alert_warn", "post_hs_empty_data")
+    POSTHS = ("post_hs_zero", "post_hs_zero16", "post_hs_handshake", "post_hs_ccs", "post_hs_unknown", "post_hs_alert1", "post_hs_alert3", "post_hs_alert_warn", "post_hs_empty_data", "post_hs_badmac", "post_hs_data_then_badmac")
     for proto, sp in ((257, "tlcp"), (771, "srv"), (772, "srv")):
         for dev in POSTHS:
             for ex_ in (mexe, rexe):
@@ -295,7 +295,8 @@ def body():
             elif posths:
                 # what the application may be given after the handshake: only what the peer wrote as application data ("ping", at most once, in order)
                 given = b"".join(bytes.fromhex(e.get("got", "")) for e in evs if e.get("e") in ("Data", "Again") and e.get("rc") == 1)
-                if given not in (b"", b"ping"):
+                genuine = [b"early", b"ping"] if mp[0] == "post_hs_data_then_badmac" else [b"ping"]
+                if given not in {b"".join(genuine[:k]) for k in range(len(genuine) + 1)}:
                     c.violation(key, "the application was handed bytes the peer never wrote as application data (a refused record came back on the next receive): %s" % given[:40].hex(), {"peer_view": view, "events": evs})
     c.cov["msan_handshakes"] = mdone
     c.sample({"seeds": ["%s/v%d (%d bytes)" % (t, v, len(s)) for t, v, s in seeds][:40]})
